@@ -121,14 +121,19 @@ def run(ctx):
     rng = ctx.rng
     n = (300 if ctx.quick else 1500) * (3 if ctx.search else 1)
     for _ in range(n):
-        a, o, t = valid_configurator(rng, ctx.quick, top_items=True)
+        a, o, t = valid_configurator(rng, ctx.quick, top_items=True, multi_default_p=0.15, dup_top_p=0.12)
         rules = []
+        # (rules are validated against the configurator without its repeated top-level entries, if it has any)
+        base_args, seen_ = [], []
+        for x in a["args"]:
+            if not any(x == y for y in seen_):
+                base_args.append(x); seen_.append(x)
         for k in range(rng.randint(1, 3)):
             for _ in range(20):
                 r = gen_rule(rng, t, k)
                 try:
                     ro = build(r)
-                    trial = build({"c": "Stingy", "args": a["args"] + rules + [r], "id": "x"})
+                    trial = build({"c": "Stingy", "args": base_args + rules + [r], "id": "x"})
                     tt = snap(trial)
                     ok = "id" in r and any(c["id"] == r["id"] for c in t["kids"]) or (well_formed(tt) and not trial.errors() and free01(tt))
                 except Exception:
